@@ -60,7 +60,9 @@ var templates = []template{
 	{"update t set a = ?, b = ? where c = ? or d = ?", 4, []bool{false, false, false, false}},
 }
 
-var modes = []string{"", "NO_BACKSLASH_ESCAPES", "ANSI_QUOTES"}
+// the lower-case spelling was added with the repair of the NO_BACKSLASH_ESCAPES finding: the mode
+// name a client sends is case-insensitive in MySQL
+var modes = []string{"", "NO_BACKSLASH_ESCAPES", "ANSI_QUOTES", "no_backslash_escapes,ansi_quotes"}
 
 // ---------- independent decoding of a parameter: what value was bound ----------
 
